@@ -1292,6 +1292,23 @@ def conservation2d_clause(vals, num, bx, by):
             f = field.fdata(model, msh, model.prim2cons([rho, V, p]))
             res = disc.rhs(f)
             vol = msh.vol()
+            # per-cell balance against the face fluxes the operator itself computed (x-faces row by row, then y-faces)
+            dx, dy, fsh = msh.dx(), msh.dy(), ny * (nx + 1)
+            G = [np.asarray(disc.flux[0]), np.asarray(disc.flux[1])[0], np.asarray(disc.flux[1])[1], np.asarray(disc.flux[2])]
+            R = [np.asarray(res[0]), np.asarray(res[1])[0], np.asarray(res[1])[1], np.asarray(res[2])]
+            for k in range(4):
+                for J in range(ny):
+                    for I_ in range(nx):
+                        c = J * nx + I_
+                        bal = -dy * (G[k][J * (nx + 1) + I_ + 1] - G[k][J * (nx + 1) + I_]) \
+                              - dx * (G[k][fsh + (J + 1) * nx + I_] - G[k][fsh + J * nx + I_])
+                        if abs(R[k][c] * dx * dy - bal) > 1e-10 * max(1.0, abs(bal)):
+                            show(num=num, bc=(bx, by), nx=nx, ny=ny, flux=flux, comp=k, cell=(J, I_), res_dx_dy=float(R[k][c] * dx * dy),
+                                 flux_balance=float(bal))
+                            ok = False
+                            break
+                    if not ok:
+                        break
             for k in (0, 2):
                 I = float(np.sum(res[k] * vol))
                 if abs(I) > 1e-10:
